@@ -16,6 +16,7 @@ type Leaf struct {
 	Shape   []int     `json:"shape"`
 	Vals    F64s      `json:"vals"`
 	Tracked bool      `json:"tracked"`
+	Via     int       `json:"via,omitempty"` // provenance of the library tensor (lib.NewVia)
 }
 
 // Node is one operation. In holds operand ids: ids < len(leaves) are leaves, the rest nodes.
@@ -242,7 +243,7 @@ func ApplyLib(n Node, in []tensor.Tensor, p *Passed) (tensor.Tensor, error) {
 func RunLib(p Program) ([]tensor.Tensor, error) {
 	vals := make([]tensor.Tensor, 0, len(p.Leaves)+len(p.Nodes))
 	for i, l := range p.Leaves {
-		x, err := lib.New(l.Shape, l.Vals, l.Tracked)
+		x, err := lib.NewVia(l.Shape, l.Vals, l.Tracked, l.Via)
 		if err != nil {
 			return nil, fmt.Errorf("leaf %d: %w", i, err)
 		}
